@@ -121,6 +121,59 @@ func (p *Prog) computeFuncAliases() {
 			old = append(old, n)
 		}
 		cur := par.AnonFuncs
+		// (c) the reverse: a small function was merged into its caller as a closure — par has exactly one closure more
+		// than recorded and exactly one recorded function of the same package and receiver is gone
+		if len(cur) == len(old)+1 && par.Parent() == nil && par.Pkg != nil {
+			cand := -1
+			for k := range cur {
+				ok := true
+				for i, j := 0, 0; j < len(cur); j++ {
+					if j == k {
+						continue
+					}
+					if FuncTable[old[i]][2] != sigString(cur[j]) {
+						ok = false
+						break
+					}
+					i++
+				}
+				if ok {
+					if cand >= 0 {
+						cand = -2
+						break
+					}
+					cand = k
+				}
+			}
+			if cand >= 0 && isNew(cur[cand]) || cand >= 0 && len(old) == 0 {
+				var gone []string
+				for name, info := range FuncTable {
+					if strings.Contains(name, "$") || info[0] != par.Pkg.Pkg.Path() || info[1] != recvName(par) {
+						continue
+					}
+					if _, ok := present[name]; ok {
+						continue
+					}
+					if _, taken := fc.byCanon[name]; taken {
+						continue
+					}
+					gone = append(gone, name)
+				}
+				if len(gone) == 1 {
+					setAlias(cur[cand], gone[0])
+					for i, j := 0, 0; j < len(cur); j++ {
+						if j == cand {
+							continue
+						}
+						if cur[j].String() != old[i] {
+							setAlias(cur[j], old[i])
+						}
+						i++
+					}
+				}
+			}
+			continue
+		}
 		if len(old) == 0 || len(cur) >= len(old) {
 			continue
 		}
